@@ -125,3 +125,78 @@ def parse_ls_table(text: str) -> Optional[List[Tuple[str, str]]]:
             continue
         rows.append((l[:col - 1].rstrip() if len(l) >= col else l.rstrip(), l[col:].rstrip()))
     return rows
+
+
+# --------------------------------------------------------------------------
+# cross-check through the real CLI in a subprocess on real files
+# --------------------------------------------------------------------------
+
+def cli_export(files: Dict[str, bytes], image_name: str, timeout: float = 120.0):
+    """Runs ``python -m smpl_extract export <image> -d dest`` on real files.
+
+    Returns (returncode, stdout, tree).  Used for a small sample of scenarios to
+    bound how much SimFile / the virtual FS can misrepresent real file objects.
+    """
+    import shutil
+    import subprocess
+    import sys
+    import tempfile
+    from .seams import _sandbox_root
+    root = _sandbox_root() + "-cli"
+    os.makedirs(root, exist_ok=True)
+    d = tempfile.mkdtemp(dir=root)
+    try:
+        for name, data in files.items():
+            with open(os.path.join(d, name), "wb") as fh:
+                fh.write(data)
+        dest = os.path.join(d, "dest")
+        repo = os.environ.get("VERIF_REPO", "/repo")
+        env = dict(os.environ)
+        env["PYTHONPATH"] = repo
+        env["PYTHONDONTWRITEBYTECODE"] = "1"
+        p = subprocess.run([sys.executable, "-B", "-m", "smpl_extract", "export", os.path.join(d, image_name), "-d", dest],
+                           capture_output=True, text=True, timeout=timeout, env=env, cwd=d)
+        tree: Dict[str, bytes] = {}
+        for dd, dirs, fs in os.walk(dest):
+            dirs.sort()
+            for f in sorted(fs):
+                pth = os.path.join(dd, f)
+                with open(pth, "rb") as fh:
+                    tree[os.path.relpath(pth, dest)] = fh.read()
+        return p.returncode, p.stdout, tree
+    finally:
+        shutil.rmtree(d, ignore_errors=True)
+        try:
+            os.rmdir(root)
+        except OSError:
+            pass
+
+
+def cli_ls(files: Dict[str, bytes], image_name: str, path: str = "", timeout: float = 120.0):
+    import shutil
+    import subprocess
+    import sys
+    import tempfile
+    from .seams import _sandbox_root
+    root = _sandbox_root() + "-cli"
+    os.makedirs(root, exist_ok=True)
+    d = tempfile.mkdtemp(dir=root)
+    try:
+        for name, data in files.items():
+            with open(os.path.join(d, name), "wb") as fh:
+                fh.write(data)
+        repo = os.environ.get("VERIF_REPO", "/repo")
+        env = dict(os.environ)
+        env["PYTHONPATH"] = repo
+        env["PYTHONDONTWRITEBYTECODE"] = "1"
+        argv = [sys.executable, "-B", "-m", "smpl_extract", "ls", os.path.join(d, image_name)]
+        if path:
+            argv.append(path)
+        p = subprocess.run(argv, capture_output=True, text=True, timeout=timeout, env=env, cwd=d)
+        return p.returncode, p.stdout
+    finally:
+        shutil.rmtree(d, ignore_errors=True)
+        try:
+            os.rmdir(root)
+        except OSError:
+            pass
